@@ -269,7 +269,7 @@ def build_histories(ctx, base, wb):
         else:
             fixed.append(("types-sequence", [T({"enable_serialization_asserts": True, "cast_format": "static_cast<{type}>({value})"}), T({}),
                                              T({"enable_serialization_asserts": True})]))
-        nrand = 3 if ctx.quick else 24
+        nrand = 3 if ctx.quick else 12
         for _ in range(nrand):
             steps, live, runs = [], [], 0
             while runs < rng.choice([3, 3, 4]):
@@ -423,12 +423,12 @@ def api_stream(ctx, base, drv, wb):
                     ctx.disagree("api-emission", dict(replay_h, step=i, call=s, requested_options=req), m, real)
         runs_of[hi] = runs
         full = [x for x in runs if not x["omit"] and x["has_support"]]
-        for a in full:
-            for b in full:
-                if a is b and ctx.quick:
-                    continue
-                for cname, cmd in base.compilers_for(lang, a["eff"], b["eff"], not ctx.quick)[:(1 if ctx.quick else 3)]:
-                    jobs.append((hi, a, b, cname, cmd))
+        pairs = [(a, b) for a in full for b in full if not (a is b and ctx.quick)]
+        if len(pairs) > 16:     # long random histories: a seeded sample of the ordered pairs (every history keeps its first pairs)
+            pairs = pairs[:4] + ctx.rng.sample(pairs[4:], 12)
+        for a, b in pairs:
+            for cname, cmd in base.compilers_for(lang, a["eff"], b["eff"], not ctx.quick)[:(1 if ctx.quick else 2)]:
+                jobs.append((hi, a, b, cname, cmd))
     tus = {lang: wb.root / f"tu_{lang}{'.c' if lang == 'c' else '.cpp'}" for lang in ("c", "cpp")}
     with concurrent.futures.ThreadPoolExecutor(max_workers=base.NWORK) as ex:
         futs = [(j, ex.submit(base.compile_tu, wb, hist[j[0]][0], j[1]["sup"], j[2]["typ"], tus[hist[j[0]][0]], base.TYPE_STEMS, j[3], j[4]))
